@@ -715,7 +715,7 @@ class Gen:
             return self.body(rnd, d, st, sp)
 
         if kind == "[":
-            nb = rnd.choice([1, 1, 2, 2, 3, 4])
+            nb = rnd.choice([1, 1, 2, 2, 3, 4, 5, 6, 7])
             return If([body(spine and i == nb - 1) for i in range(nb)])
         if kind == "(":
             var = None
